@@ -6,12 +6,16 @@ the C19 check itself is owned by fam/membroker.py.)
 Pieces
   spec/MapBroker/MapBroker.tla        one channel: state, stream window, epochs, idempotency cache, the three sweepers, two-phase
                                       key expiry (ExpirePhase1 / ExpirePhase2), pagination operators + independent SortedKeys
-  quick-checks / quick-time .cfg      exhaustive (quick); thorough-{checks,time,modes,race}.cfg (thorough)
-  MapBrokerSim.tla sim.cfg manual.cfg behaviour generators (own sweepers, Deterministic / manual sweeps with a gate between the phases)
+  quick-{checks,time,idem}.cfg        exhaustive (quick); thorough-{checks,time,idem,modes,race}.cfg (thorough)
+  MapBrokerSim.tla sim.cfg sim-c19.cfg manual.cfg  behaviour generators (own sweepers, Deterministic / manual sweeps with a gate between the phases)
   MapBrokerPages.tla pages*.cfg       C21 table: all key sets over {a,b,c,d} x score assignments, all page sizes, both directions
   MapBrokerTrace.tla trace.cfg        trace validation of recorded executions (thorough tier)
   harness/mapbroker (replay, expiry, pages, trace), overlay/mapbroker/shim.go (option setters, handler without goroutines,
                                       manual expireKeysIteration, read-only snapshot)
+
+c19_map(c) is the entry point for the lead's C19 check (map half): the result cache is modelled as the code has it (entries +
+expiry-queue items that can be stale + the once-a-second cleaner SweepIdem that re-checks the current entry), judged against a
+ghost cache that no cleaner touches (IdemExact, IdemSweepKeepsValid).
 
 No hook in /repo is needed: the window between phase 1 and phase 2 of expireKeysIteration is held open by a natural gate
 (phase 2 calls the event handler for a decoy channel whose key expires first; the harness' handler parks there).
@@ -37,7 +41,13 @@ worktrees removed).  exit 1 = caught.
   remove_no_stream_ttl_touch    Remove does not extend the stream TTL                                      exit 1 (stream survives its model deadline); bookkeeping-only runs: exit 2
   (asked for but not applicable: "if-exists treats an expired-but-unswept key as existing" IS the code's behaviour -- existence is
    membership in channel.state, deadlines are only acted on by the sweeper; modelled as such.)
+ C19 (map half; `c19_map` and C20)
+  cleaner_no_recheck            expireResultCache deletes the entry whenever it pops an item of the key   exit 1 (a stale item of an older save / of before a Clear
+                                (re-check `entry.ExpireAt <= now` dropped)                                 evicts the newer result: retry applied instead of suppressed)
+  (seed C24-2, see C24)
  C21
+  seed C21-2 (upgrade branch of add() dropped: a channel object created by ReadState/ReadStream stays unordered)   exit 1 (pages table: every state is also built
+                                after a read-before-first-publish / Clear+read / remove-all+read; replay: snapshot of channel.ordered against the model's chOrd)
   tie_cursor                    ordered cursor search uses >= / <= on equal scores                         exit 1 (duplicate key, no progress)
   desc_skips_first              descending pages start one past the cursor position                        exit 1
   unordered_restart             unordered cursor of a removed key restarts at 0                            exit 1 (probe with absent cursor key)
@@ -46,6 +56,9 @@ worktrees removed).  exit 1 = caught.
   single_key_ignores_missing    Key lookup of an absent key returns another entry                          exit 1
   score_parse_32bit             cursor score parsed with bitSize 32                                        exit 1 (min/max int64 scores)
  C24
+  seed C24-2 (h.nextKeyExpireCheck stored at the very end of the iteration with the phase-1 value)               exit 1 (expiry:sweep-idle: the next decoy key is
+                                published INSIDE the parked sweep's window; the forgotten deadline leaves the sweeper idle and the expired key is never
+                                removed; model: variable nkc, Arm(), invariant SweeperArmed)
   phase2_no_revalidation        phase 2 removes whenever the key exists (deadline not compared)            exit 1 (gated expiry mode only: refreshed key removed)
   broadcast_without_stream_entry phase 2 does not append the removal                                       exit 1
   double_removal                phase 2 also "removes" a key that is gone                                  exit 1 (expiry + replay + trace monitor)
@@ -140,7 +153,7 @@ def _trace(c, binp, n):
         else:
             what = ('recorded execution is not a behaviour of the reference map: event %d %s is not allowed after the '
                     'matched prefix (channel options %s)' % (k, ev, t[0].get('cf')))
-        if p == c.prop:
+        if c.prop in p:
             c.violation('trace:%s%s' % (ev.get('ev') if ev else '?', (':' + ev['res'].get('sup', '')) if ev and 'res' in ev and isinstance(ev['res'], dict) and ev['res'].get('sup') else ''),
                         what, {'trace': t, 'matched_prefix': k})
         accepted += bad_i
@@ -156,17 +169,22 @@ def _trace(c, binp, n):
 
 
 def _trace_prop(t, k):
-    """Which property a rejected event belongs to: key expiry is involved when the channel has a key TTL and the
-    event (or the state it reports) disagrees about keys / removal entries; pagination for ReadState pages."""
+    """The properties a rejected event belongs to: pagination for ReadState pages; key expiry when the channel has a key
+    TTL and a read / snapshot disagrees; writes that carry an idempotency key or a version (or were suppressed for one
+    of the two) also belong to the map half of C19."""
     ev = t[k] if k < len(t) else None
     if not ev:
-        return 'C20'
+        return {'C20'}
     if ev.get('ev') == 'ReadState' and not ev['args'].get('key') and ev['args'].get('limit') != 0:
-        return 'C21'
+        return {'C21'}
     cf = t[0].get('cf') or {}
     if cf.get('kttl', 0) > 0 and ev.get('ev') in ('ReadState', 'ReadStream', 'Peek'):
-        return 'C24'
-    return 'C20'
+        return {'C24'}
+    if ev.get('ev') in ('Publish', 'Remove'):
+        a, r = ev.get('args') or {}, ev.get('res') or {}
+        if a.get('ik') or a.get('v', 0) > 0 or r.get('sup') in ('idempotency', 'version'):
+            return {'C20', 'C19'}
+    return {'C20'}
 
 
 ASSUME = ['memory map broker only: the Redis half (Lua scripts) cannot be executed in this sandbox',
@@ -179,7 +197,7 @@ ASSUME = ['memory map broker only: the Redis half (Lua scripts) cannot be execut
 
 def c20(c):
     quick = c.tier == 'quick'
-    _exhaustive(c, ['quick-checks.cfg', 'quick-time.cfg'] if quick else ['thorough-checks.cfg', 'thorough-time.cfg', 'thorough-modes.cfg'])
+    _exhaustive(c, ['quick-checks.cfg', 'quick-time.cfg', 'quick-idem.cfg'] if quick else ['thorough-checks.cfg', 'thorough-time.cfg', 'thorough-idem.cfg', 'thorough-modes.cfg'])
     binp = c.go_build('mapbroker')
     _replay(c, binp, 200 if quick else 1500)
     if not quick:
@@ -222,6 +240,26 @@ def c24(c):
                      'first), runs the model\'s operations in the window, then lets phase 2 finish; removal broadcasts, stream and state compared. '
                      'non-trivial = behaviours with a write between the phases. replay: as C20, the sweeps are the broker\'s own')
     c.assumptions += ASSUME
+
+
+def c19_map(c):
+    """Map half of C19 (idempotent and versioned publishes suppress exactly the duplicates), to be called by the C19 check:
+    the exhaustive configurations that carry idempotency keys / versions, then behaviours of MapBrokerSim with the
+    idempotency- and version-aimed slots weighted up (sim-c19.cfg) replayed on the real broker; violations tagged C19
+    (suppress-reason mismatches involving idempotency or version, idempotent position, stored per-key version)."""
+    quick = c.tier == 'quick'
+    _exhaustive(c, ['quick-idem.cfg', 'quick-checks.cfg'] if quick else ['thorough-idem.cfg', 'thorough-checks.cfg'])
+    binp = c.go_build('mapbroker')
+    behs = _simulate(c, 'sim-c19.cfg', 200 if quick else 1500)
+    res = c.harness(binp, 'replay', behs, timeout=600)
+    _take(c, res, 'replay-c19')
+    if not quick:
+        _trace(c, binp, 300)
+    c.cov['rule'] = ((c.cov.get('rule') or '') + ' | map half: TLC -simulate of MapBrokerSim with Focus19 (repeats of an idempotency key inside its TTL, '
+                     're-saves after the first TTL elapsed followed by the cache cleaner and a retry, Publish and Remove; versioned publishes below / at / above '
+                     'the stored per-key version, same or other version epoch, unversioned in between), replayed on the real MemoryMapBroker with its '
+                     'once-a-second result-cache cleaner placed 0.25 s after the operations of each tick').strip(' |')
+    c.assumptions += [a for a in ASSUME if a not in c.assumptions]
 
 
 CHECKS = {'C20': c20, 'C21': c21, 'C24': c24}
